@@ -7,10 +7,11 @@
 //!   i n <scripthash> <txhash> <ix>         input, native script witness
 //!   i p <scripthash> <txhash> <ix> <rid>   input, Plutus witness whose redeemer data is the integer <rid>
 //!   c k|n|p …                              the same on the collateral TxInputsBuilder
-//!   m <policy> n <ref> <zero>              MintBuilder::add_asset, native witness; ref = reference-input source; zero = amount 0
-//!   m <policy> p <ref> <rid> <zero>        the same with a Plutus witness
+//!   m <policy> n <ref> <asset> <amount> <set>        MintBuilder::add_asset (set = 1: set_asset), native witness; ref = reference-input
+//!                                            source; asset = number naming the asset; amount = signed quantity (0 is refused)
+//!   m <policy> p <ref> <rid> <asset> <amount> <set>  the same with a Plutus witness
 //!   x a|n|p <kind> <script> <id> [<rid>]   certificate of CDDL kind 0..18 (a = add, n = add_with_native_script, p = add_with_plutus_witness)
-//!   w a|n|p <net> <script> <hash> [<rid>]  withdrawal from the reward account (network, key/script credential)
+//!   w a|n|p <net> <script> <hash> <coin> [<rid>]  withdrawal of <coin> lovelace (0 allowed) from the reward account (network, credential)
 //!   v a|n|p <0|1|2> <script> <hash> [<rid>] vote of a committee / DRep / stake-pool voter
 //!   g a|n|p <kind> <policy|~> <id> [<rid>]  proposal (GovernanceAction variant 0..6, policy hash, deposit = id)
 //! A script/policy hash token is `hex` (reference-script source carrying that hash) or `hex@seed` (inline script
@@ -44,9 +45,9 @@ enum InK { Key, Native(H), Plutus(H, u64) }
 #[derive(Clone, Debug)]
 enum Op {
     In { col: bool, kind: InK, tx: Vec<u8>, ix: u32 },
-    Mint { policy: H, plutus: Option<u64>, is_ref: bool, zero: bool },
+    Mint { policy: H, plutus: Option<u64>, is_ref: bool, asset: u64, amount: i64, set: bool },
     Cert { wk: Wk, kind: u32, script: bool, id: u64 },
-    Wd { wk: Wk, net: u8, script: bool, hash: Vec<u8> },
+    Wd { wk: Wk, net: u8, script: bool, hash: Vec<u8>, coin: u64 },
     Vote { wk: Wk, vk: u8, script: bool, hash: Vec<u8> },
     Prop { wk: Wk, kind: u32, policy: Option<Vec<u8>>, id: u64 },
 }
@@ -66,12 +67,12 @@ impl Op {
                     InK::Plutus(h, r) => format!("{} p {} {} {} {}", c, h.show(), hex_or_dash(tx), ix, r),
                 }
             }
-            Op::Mint { policy, plutus, is_ref, zero } => match plutus {
-                None => format!("m {} n {} {}", policy.show(), b01(*is_ref), b01(*zero)),
-                Some(r) => format!("m {} p {} {} {}", policy.show(), b01(*is_ref), r, b01(*zero)),
+            Op::Mint { policy, plutus, is_ref, asset, amount, set } => match plutus {
+                None => format!("m {} n {} {} {} {}", policy.show(), b01(*is_ref), asset, amount, b01(*set)),
+                Some(r) => format!("m {} p {} {} {} {} {}", policy.show(), b01(*is_ref), r, asset, amount, b01(*set)),
             },
             Op::Cert { wk, kind, script, id } => { let (k, r) = wk_show(wk); format!("x {} {} {} {}{}", k, kind, b01(*script), id, r) }
-            Op::Wd { wk, net, script, hash } => { let (k, r) = wk_show(wk); format!("w {} {} {} {}{}", k, net, b01(*script), hex_or_dash(hash), r) }
+            Op::Wd { wk, net, script, hash, coin } => { let (k, r) = wk_show(wk); format!("w {} {} {} {} {}{}", k, net, b01(*script), hex_or_dash(hash), coin, r) }
             Op::Vote { wk, vk, script, hash } => { let (k, r) = wk_show(wk); format!("v {} {} {} {}{}", k, vk, b01(*script), hex_or_dash(hash), r) }
             Op::Prop { wk, kind, policy, id } => {
                 let (k, r) = wk_show(wk);
@@ -112,11 +113,13 @@ fn parse(toks: &[String]) -> Vec<Op> {
                 let kind = p.next();
                 let is_ref = p.next() == "1";
                 let plutus = if kind == "p" { Some(p.next().parse().unwrap()) } else { None };
-                let zero = p.next() == "1";
-                Op::Mint { policy, plutus, is_ref, zero }
+                let asset = p.next().parse().unwrap();
+                let amount = p.next().parse().unwrap();
+                let set = p.next() == "1";
+                Op::Mint { policy, plutus, is_ref, asset, amount, set }
             }
             "x" => { let k = p.next(); let kind = p.next().parse().unwrap(); let script = p.next() == "1"; let id = p.next().parse().unwrap(); let wk = p.wk(k); Op::Cert { wk, kind, script, id } }
-            "w" => { let k = p.next(); let net = p.next().parse().unwrap(); let script = p.next() == "1"; let hash = unhex_or_dash(p.next()); let wk = p.wk(k); Op::Wd { wk, net, script, hash } }
+            "w" => { let k = p.next(); let net = p.next().parse().unwrap(); let script = p.next() == "1"; let hash = unhex_or_dash(p.next()); let coin = p.next().parse().unwrap(); let wk = p.wk(k); Op::Wd { wk, net, script, hash, coin } }
             "v" => { let k = p.next(); let vk = p.next().parse().unwrap(); let script = p.next() == "1"; let hash = unhex_or_dash(p.next()); let wk = p.wk(k); Op::Vote { wk, vk, script, hash } }
             "g" => { let k = p.next(); let kind = p.next().parse().unwrap(); let pol = p.next(); let policy = if pol == "~" { None } else { Some(unhex_or_dash(pol)) };
                      let id = p.next().parse().unwrap(); let wk = p.wk(k); Op::Prop { wk, kind, policy, id } }
@@ -171,7 +174,8 @@ fn mk_cert(tag: u32, script: bool, id: u64) -> Certificate {
     let c = cred_seed(script, id, 1);
     let pool = keyhash(id, 2);
     let odd = id % 2 == 1;
-    let coin = BigNum::from(1_000_000u64);
+    // deposits / refunds of 0 are legal values too
+    let coin = BigNum::from(if id % 4 == 0 { 0 } else { 1_000_000u64 });
     let drep = match id % 4 { 0 => DRep::new_always_abstain(), 1 => DRep::new_always_no_confidence(), 2 => DRep::new_key_hash(&keyhash(id, 9)), _ => DRep::new_script_hash(&scripthash_b(&bytes_from(id, 9, 28))) };
     match tag {
         0 => Certificate::new_stake_registration(&StakeRegistration::new(&c)),
@@ -269,7 +273,8 @@ const BYRON: &str = "Ae2tdPwUPEZ6r6zbg4ibhFrNnyKHg7SYuPSfDpjKxgvwFX9LquRep7gj7FQ
 
 fn add_input(b: &mut TxInputsBuilder, kind: &InK, tx: &[u8], ix: u32, pos: usize) {
     let input = TransactionInput::new(&TransactionHash::from_bytes(tx.to_vec()).expect("32-byte tx hash in case"), ix);
-    let value = Value::new(&BigNum::from(10_000_000_000u64));
+    // some inputs carry no ada at all (the funding input f0.. and the key collateral c0.. never do)
+    let value = Value::new(&BigNum::from(if tx[30] % 5 == 1 { 0 } else { 10_000_000_000u64 }));
     match kind {
         InK::Key => match (tx[31] as u64 + ix as u64) % 3 {
             0 => b.add_key_input(&keyhash(ix as u64, 0x20), &input, &value),
@@ -297,13 +302,15 @@ fn exec(toks: &[String]) -> String {
     for (pos, o) in ops.iter().enumerate() {
         let ok = match o {
             Op::In { col, kind, tx, ix } => { add_input(if *col { &mut collateral } else { &mut inputs }, kind, tx, *ix, pos); true }
-            Op::Mint { policy, plutus, is_ref, zero } => {
+            Op::Mint { policy, plutus, is_ref, asset, amount, set } => {
                 assert_eq!(policy.seed.is_none(), *is_ref, "ref flag and hash token disagree");
                 let w = match plutus {
                     None => MintWitness::new_native_script(&native_source(policy, pos)),
                     Some(rid) => MintWitness::new_plutus_script(&plutus_source(policy, pos), &redeemer(*rid)),
                 };
-                let r = mint.add_asset(&w, &AssetName::new(vec![0x41, (pos % 7) as u8]).unwrap(), &Int::new_i32(if *zero { 0 } else { 1 }));
+                let name = AssetName::new(vec![0x41, (*asset % 251) as u8, (*asset / 251) as u8]).unwrap();
+                let q = if *amount >= 0 { Int::new(&BigNum::from(*amount as u64)) } else { Int::new_negative(&BigNum::from(amount.unsigned_abs())) };
+                let r = if *set { mint.set_asset(&w, &name, &q) } else { mint.add_asset(&w, &name, &q) };
                 if r.is_ok() { n_mint += 1; }
                 r.is_ok()
             }
@@ -319,9 +326,9 @@ fn exec(toks: &[String]) -> String {
                 if r.is_ok() { n_cert += 1; }
                 r.is_ok()
             }
-            Op::Wd { wk, net, script, hash } => {
+            Op::Wd { wk, net, script, hash, coin } => {
                 let a = RewardAddress::new(*net, &cred_of(*script, hash));
-                let coin = BigNum::from(1000 + pos as u64);
+                let coin = BigNum::from(*coin);
                 let h = H { bytes: hash.clone(), seed: None };
                 let r = match wk {
                     Wk::Add => wdrl.add(&a, &coin),
@@ -484,8 +491,26 @@ impl Gen {
         let plutus = r.chance(3, 5);
         let policy = hash_tok(r, &self.h28, plutus);
         let is_ref = policy.seed.is_none();
-        Op::Mint { policy, plutus: if plutus { Some(self.rid(r)) } else { None }, is_ref, zero: r.chance(1, 20) }
+        // assets 10.. are used with set_asset (always positive), assets 0..2 with add_asset (see mint_group)
+        let set = r.chance(1, 8);
+        let asset = if set { 10 + r.below(2) } else { r.below(3) };
+        let amount = if r.chance(1, 20) { 0 } else { 1 + r.below(5) as i64 };
+        Op::Mint { policy, plutus: if plutus { Some(self.rid(r)) } else { None }, is_ref, asset, amount, set }
     }
+    /// a mint call, sometimes followed by a burn of the same asset under the same witness that takes back part or all of it
+    /// (the net quantity of an asset is never negative, so the transaction can balance; net 0 makes MintBuilder::build fail)
+    fn mint_group(&mut self, r: &mut Rng) -> Vec<Op> {
+        let first = self.mint(r);
+        let mut v = vec![first.clone()];
+        if let Op::Mint { policy, plutus, is_ref, asset, amount, set } = first {
+            if !set && amount > 0 && r.chance(1, 5) {
+                let back = if r.chance(1, 6) { amount } else if amount > 1 { 1 + r.below(amount as u64 - 1) as i64 } else { 0 };
+                if back > 0 { v.push(Op::Mint { policy, plutus, is_ref, asset, amount: -back, set: false }); }
+            }
+        }
+        v
+    }
+    fn coin(&mut self, r: &mut Rng) -> u64 { match r.below(8) { 0 | 1 => 0, 2 => 1, 3 => 4_294_967_296, 4 => 4_000_000_000, _ => 1000 + r.below(100_000) } }
     fn wk(&mut self, r: &mut Rng, script: bool) -> Wk {
         // mostly the matching entry point, sometimes the wrong one (an error)
         let right = !r.chance(1, 8);
@@ -501,7 +526,8 @@ impl Gen {
     fn wd(&mut self, r: &mut Rng) -> Op {
         let script = r.chance(3, 5);
         let wk = self.wk(r, script);
-        Op::Wd { wk, net: if r.chance(1, 6) { 1 } else { 0 }, script, hash: self.h28.pick(r) }
+        let coin = self.coin(r);
+        Op::Wd { wk, net: if r.chance(1, 6) { 1 } else { 0 }, script, hash: self.h28.pick(r), coin }
     }
     fn vote(&mut self, r: &mut Rng) -> Op {
         let vk = r.below(3) as u8;
@@ -516,7 +542,7 @@ impl Gen {
             Some(_) => if r.chance(1, 8) { Wk::Add } else { Wk::Plutus(self.rid(r)) },
             None => if allow_nonscript_plutus && r.chance(1, 3) { Wk::Plutus(self.rid(r)) } else if r.chance(1, 30) { Wk::Native } else { Wk::Add },
         };
-        Op::Prop { wk, kind, policy, id: 1 + r.below(9) }
+        Op::Prop { wk, kind, policy, id: r.below(10) }
     }
 }
 
@@ -538,8 +564,8 @@ fn gen(dir: &str) {
         for _ in 0..(60 * scale) {
             let mut g = Gen::new(&mut r);
             let n = 1 + r.below(9) as usize;
-            let mut ops: Vec<Op> = (0..n).map(|_| match which {
-                0 => g.input(&mut r, false, 50), 1 => g.mint(&mut r), 2 => g.cert(&mut r), 3 => g.wd(&mut r), 4 => g.vote(&mut r), _ => g.prop(&mut r, false),
+            let mut ops: Vec<Op> = (0..n).flat_map(|_| match which {
+                0 => vec![g.input(&mut r, false, 50)], 1 => g.mint_group(&mut r), 2 => vec![g.cert(&mut r)], 3 => vec![g.wd(&mut r)], 4 => vec![g.vote(&mut r)], _ => vec![g.prop(&mut r, false)],
             }).collect();
             ops.push(g.funding()); ops.push(g.key_collateral());
             shuffle(&mut r, &mut ops);
@@ -581,7 +607,7 @@ fn gen(dir: &str) {
         let mut g = Gen::new(&mut r);
         let mut ops = vec![g.funding(), g.key_collateral()];
         for _ in 0..r.below(6) { ops.push(g.input(&mut r, false, 45)); }
-        for _ in 0..r.below(4) { ops.push(g.mint(&mut r)); }
+        for _ in 0..r.below(4) { ops.extend(g.mint_group(&mut r)); }
         for _ in 0..r.below(5) { ops.push(g.cert(&mut r)); }
         for _ in 0..r.below(5) { ops.push(g.wd(&mut r)); }
         for _ in 0..r.below(5) { ops.push(g.vote(&mut r)); }
@@ -598,9 +624,11 @@ fn gen(dir: &str) {
         let mut ops = vec![g.funding(), g.key_collateral()];
         for hh in [&h, &h2] {
             for net in [0u8, 1] {
-                ops.push(Op::Wd { wk: Wk::Add, net, script: false, hash: hh.clone() });
+                let c1 = g.coin(&mut r);
+                ops.push(Op::Wd { wk: Wk::Add, net, script: false, hash: hh.clone(), coin: c1 });
                 let rid = g.rid(&mut r);
-                ops.push(Op::Wd { wk: Wk::Plutus(rid), net, script: true, hash: hh.clone() });
+                let c2 = g.coin(&mut r);
+                ops.push(Op::Wd { wk: Wk::Plutus(rid), net, script: true, hash: hh.clone(), coin: c2 });
             }
             for vk in [0u8, 1] {
                 ops.push(Op::Vote { wk: Wk::Add, vk, script: false, hash: hh.clone() });
@@ -625,9 +653,9 @@ fn gen(dir: &str) {
             let rid = g.rid(&mut r);
             match r.below(6) {
                 0 => ops.push(Op::In { col: false, kind: if r.chance(1, 2) { InK::Plutus(sh.clone(), rid) } else if r.chance(1, 2) { InK::Native(sh.clone()) } else { InK::Key }, tx: tx.clone(), ix: 1 }),
-                1 => ops.push(Op::Mint { policy: H { bytes: h.clone(), seed: None }, plutus: if r.chance(2, 3) { Some(if r.chance(1, 2) { 5 } else { rid }) } else { None }, is_ref: true, zero: false }),
+                1 => ops.push(Op::Mint { policy: H { bytes: h.clone(), seed: None }, plutus: if r.chance(2, 3) { Some(if r.chance(1, 2) { 5 } else { rid }) } else { None }, is_ref: true, asset: r.below(2), amount: 1 + r.below(3) as i64, set: r.chance(1, 4) }),
                 2 => { let script = r.chance(2, 3); ops.push(Op::Cert { wk: if script { Wk::Plutus(rid) } else { Wk::Add }, kind: 2, script, id: 3 }) }
-                3 => ops.push(Op::Wd { wk: if r.chance(2, 3) { Wk::Plutus(rid) } else { Wk::Native }, net: 0, script: true, hash: h.clone() }),
+                3 => { let c = g.coin(&mut r); ops.push(Op::Wd { wk: if r.chance(2, 3) { Wk::Plutus(rid) } else { Wk::Native }, net: 0, script: true, hash: h.clone(), coin: c }) }
                 4 => ops.push(Op::Vote { wk: if r.chance(2, 3) { Wk::Plutus(rid) } else { Wk::Native }, vk: 1, script: true, hash: h.clone() }),
                 _ => ops.push(Op::Prop { wk: if r.chance(2, 3) { Wk::Plutus(rid) } else { Wk::Add }, kind: 0, policy: if r.chance(2, 3) { Some(h.clone()) } else { None }, id: 4 }),
             }
@@ -682,16 +710,55 @@ fn gen(dir: &str) {
         shuffle(&mut r, &mut ops);
         emit(&mut out, "dedup", &ops);
     }
+    // 6c. value corners: withdrawals of exactly 0 lovelace (the "withdraw zero" validator pattern) before / between / after
+    //     Plutus-witnessed withdrawals in reward-account order, with key and script credentials; a body that drops or merges
+    //     such an entry no longer lists the items the redeemers were attached to
+    for _ in 0..(15 * scale) {
+        let mut g = Gen::new(&mut r);
+        let mut ops = vec![g.funding(), g.key_collateral()];
+        let n = 2 + r.below(4);
+        for _ in 0..n {
+            let script = r.chance(2, 3);
+            let wk = if script { if r.chance(4, 5) { Wk::Plutus(g.rid(&mut r)) } else { Wk::Native } } else { Wk::Add };
+            let coin = if r.chance(1, 2) { 0 } else { g.coin(&mut r) };
+            ops.push(Op::Wd { wk, net: 0, script, hash: g.h28.pick(&mut r), coin });
+        }
+        if r.chance(1, 3) { ops.push(g.cert(&mut r)); }
+        shuffle(&mut r, &mut ops);
+        emit(&mut out, "zerowd", &ops);
+    }
+    // 6d. mint quantities: several assets under one policy, burns that take back part or all of an asset (net 0 = build error),
+    //     set_asset overwriting, a native policy between Plutus policies
+    for _ in 0..(15 * scale) {
+        let mut g = Gen::new(&mut r);
+        let mut ops = vec![g.funding(), g.key_collateral()];
+        for _ in 0..(1 + r.below(3)) {
+            let plutus = r.chance(2, 3);
+            let policy = hash_tok(&mut r, &g.h28, plutus);
+            let is_ref = policy.seed.is_none();
+            let rid = g.rid(&mut r);
+            for asset in 0..(1 + r.below(3)) {
+                let a = 1 + r.below(4) as i64;
+                ops.push(Op::Mint { policy: policy.clone(), plutus: if plutus { Some(rid) } else { None }, is_ref, asset, amount: a, set: false });
+                if r.chance(1, 3) { ops.push(Op::Mint { policy: policy.clone(), plutus: if plutus { Some(rid) } else { None }, is_ref, asset, amount: if r.chance(1, 3) { -a } else { -(1 + r.below(a as u64) as i64) }, set: false }); }
+            }
+            if r.chance(1, 3) { ops.push(Op::Mint { policy: policy.clone(), plutus: if plutus { Some(rid) } else { None }, is_ref, asset: 10, amount: 1 + r.below(3) as i64, set: true }); }
+            if r.chance(1, 4) { ops.push(Op::Mint { policy: policy.clone(), plutus: if plutus { Some(rid) } else { None }, is_ref, asset: 10, amount: 7, set: true }); }
+        }
+        shuffle(&mut r, &mut ops);
+        emit(&mut out, "mintqty", &ops);
+    }
     // 7. no collateral although Plutus witnesses are present (build_tx refuses), and nothing Plutus at all
     for _ in 0..(6 * scale) {
         let mut g = Gen::new(&mut r);
         let mut ops = vec![g.funding()];
-        if r.chance(1, 2) { ops.push(g.input(&mut r, false, 100)); } else { let rid = g.rid(&mut r); ops.push(Op::Wd { wk: Wk::Plutus(rid), net: 0, script: true, hash: g.h28.pick(&mut r) }); }
+        if r.chance(1, 2) { ops.push(g.input(&mut r, false, 100)); } else { let rid = g.rid(&mut r); let c = g.coin(&mut r); ops.push(Op::Wd { wk: Wk::Plutus(rid), net: 0, script: true, hash: g.h28.pick(&mut r), coin: c }); }
         if r.chance(1, 3) { ops.push(g.input(&mut r, true, 100)); }
         emit(&mut out, "nocoll", &ops);
         let mut ops = vec![g.funding()];
         for _ in 0..r.below(4) { ops.push(g.input(&mut r, false, 0)); }
-        ops.push(Op::Wd { wk: Wk::Add, net: 0, script: false, hash: g.h28.pick(&mut r) });
+        let c = g.coin(&mut r);
+        ops.push(Op::Wd { wk: Wk::Add, net: 0, script: false, hash: g.h28.pick(&mut r), coin: c });
         emit(&mut out, "plain", &ops);
     }
     // 8. long cases
@@ -699,7 +766,7 @@ fn gen(dir: &str) {
         let mut g = Gen::new(&mut r);
         let mut ops = vec![g.funding(), g.key_collateral()];
         for _ in 0..(10 + r.below(15)) {
-            ops.push(match r.below(6) { 0 => g.input(&mut r, false, 50), 1 => g.mint(&mut r), 2 => g.cert(&mut r), 3 => g.wd(&mut r), 4 => g.vote(&mut r), _ => g.prop(&mut r, false) });
+            match r.below(6) { 0 => ops.push(g.input(&mut r, false, 50)), 1 => ops.extend(g.mint_group(&mut r)), 2 => ops.push(g.cert(&mut r)), 3 => ops.push(g.wd(&mut r)), 4 => ops.push(g.vote(&mut r)), _ => ops.push(g.prop(&mut r, false)) }
         }
         shuffle(&mut r, &mut ops);
         emit(&mut out, "long", &ops);
